@@ -10,8 +10,9 @@ NS = "EngineModel.Properties.C15CratesV1."
 LEAN_MODULES = ["Properties.C15CratesV1"]
 THEOREMS = [NS + t for t in [
     "v1c_C15_no_ub", "v1c_C15_invariant", "v1c_C15_empty", "v1c_C15_reachable_no_ub", "v1c_C15_queries_no_ub",
-    "v1c_C15_stale_crate_invalid", "v1c_C15_dead_crate_throws", "v1c_C15_descendant_parent_refused",
-    "v1c_C15_stale_track_invalid"]]
+    "v1c_C15_stale_crate_one_step", "v1c_C15_stale_crate_partial", "v1c_C15_stale_crate_counterexample",
+    "v1c_C15_dead_crate_throws", "v1c_C15_descendant_parent_refused", "v1c_C15_stale_track_one_step",
+    "v1c_C15_cyclic_table_counterexample"]]
 ASSUMPTIONS = [
     "crates 1.x: the only undefined-behaviour source of this code that is not SQLite's or sqlite_modern_cpp's is the "
     "unbounded recursion of update_path over children() (stack exhaustion on a cyclic parent list); the model "
@@ -126,7 +127,7 @@ def tie(ctx):
                 corpus.append(lines)
     scripts = corpus + scripts
     res = K.run_pair(scripts)
-    j = K.judge(res, "crates_v1", "v1", lambda s: PREFIX, stale_of, opkey)
+    j = K.judge(res, "crates_v1", "v1", lambda s: PREFIX, stale_of, opkey, defined_only=K.const_query)
     j["hist"]["corpus_scripts"] = len(corpus)
     return {"ok": j["ok"], "evaluations": j["evaluations"],
             "distinct_nontrivial": j["distinct"],
